@@ -54,6 +54,7 @@ class Recorder:
         self.untracked = []
         self.objs = Ids()
         self.obj_rows = []
+        self.untracked_objs = []
         self.ev = []
         self.depth = 0
         self.reentered = 0      # declarations made from change notifications
@@ -102,7 +103,7 @@ class Recorder:
                 impl.inherit is cls):
             opaque = True       # something was declared before we looked
         if '__providedBy__' in d and \
-                d['__providedBy__'] is not D._objectSpecificationDescriptor:
+                d['__providedBy__'] is not D.objectSpecificationDescriptor:
             opaque = True
         if not isinstance(cls, type) or cls.__module__ == 'builtins' or \
                 cls.__module__.startswith('zope.interface'):
@@ -116,7 +117,17 @@ class Recorder:
         if self.objs.has(ob):
             return self.objs.get(ob)
         n = self.objs.get(ob)
-        self.obj_rows.append({'o': n, 'cls': self.cid(type(ob))})
+        if isinstance(ob, type):
+            # a class AS AN OBJECT (directlyProvides(cls, ...), provider):
+            # an object whose class, the metaclass `type`, implements nothing
+            self.obj_rows.append({'o': n, 'cls': 0})
+            p = ob.__dict__.get('__provides__')
+            if p is not None and not (
+                    type(p) is D.ClassProvides and
+                    len(getattr(p, '_ClassProvides__args', ())) == 2):
+                self.untracked_objs.append(n)   # declared before we looked
+        else:
+            self.obj_rows.append({'o': n, 'cls': self.cid(type(ob))})
         return n
 
     def args(self, interfaces):
@@ -169,7 +180,7 @@ class Recorder:
                 for n, I in [(v[0], v[1])
                              for v in self.ifaces.by_id.values()] if n]
         return {'classes': self.class_rows, 'objs': self.obj_rows,
-                'reentrant': self.reentered, 'ianc': ianc, 'ikey': ikey, 'untracked': self.untracked, 'ev': self.ev,
+                'reentrant': self.reentered, 'ianc': ianc, 'ikey': ikey, 'untrackedO': self.untracked_objs, 'untracked': self.untracked, 'ev': self.ev,
                 'dynamic': dynamic}
 
 
@@ -197,7 +208,8 @@ ORIG = {}
 def install():
     for name in ('classImplements', 'classImplementsOnly',
                  'classImplementsFirst', 'directlyProvides', 'alsoProvides',
-                 'noLongerProvides', 'providedBy', 'implementedBy'):
+                 'noLongerProvides', 'providedBy', 'implementedBy',
+                 'directlyProvidedBy'):
         ORIG[name] = getattr(D, name)
 
     def class_decl(name):
@@ -227,12 +239,18 @@ def install():
             return g(cls, *interfaces)
         return w
 
+    def tracked_ob(ob):
+        if isinstance(ob, type):
+            return type(ob) is type and ob.__module__ != 'builtins' and \
+                not ob.__module__.startswith('zope.interface')
+        return not isinstance(ob, super) and \
+            hasattr(ob, '__dict__') and \
+            type(ob).__module__ != 'builtins' and \
+            not isinstance(ob, (InterfaceClass, D.Declaration))
+
     def obj_decl(name):
         def f(R, ob, *interfaces):
-            o = None
-            if not isinstance(ob, type) and hasattr(ob, '__dict__') \
-                    and type(ob).__module__ != 'builtins':
-                o = R.oid(ob)
+            o = R.oid(ob) if tracked_ob(ob) else None
             slot = R.reserve() if o is not None else None
             try:
                 return ORIG[name](ob, *interfaces)
@@ -246,12 +264,6 @@ def install():
             return g(ob, *interfaces)
         return w
 
-    def tracked_ob(ob):
-        return not isinstance(ob, (type, super)) and \
-            hasattr(ob, '__dict__') and \
-            type(ob).__module__ != 'builtins' and \
-            not isinstance(ob, (InterfaceClass, D.Declaration))
-
     def providedBy(R, ob):
         o = R.oid(ob) if tracked_ob(ob) else None
         r = ORIG['providedBy'](ob)
@@ -261,6 +273,17 @@ def install():
             except Exception:       # noqa
                 return r
             R.log(op='providedBy', o=o, res=res)
+        return r
+
+    def directlyProvidedBy(R, ob):
+        o = R.oid(ob) if tracked_ob(ob) else None
+        r = ORIG['directlyProvidedBy'](ob)
+        if o is not None:
+            try:
+                res = [R.iid(x) for x in r.flattened()]
+            except Exception:       # noqa
+                return r
+            R.log(op='directlyProvidedBy', o=o, res=res)
         return r
 
     def implementedBy(R, cls):
@@ -282,6 +305,8 @@ def install():
                                               'noLongerProvides')})
     pb = outermost(providedBy, ORIG['providedBy'])
     ib = outermost(implementedBy, ORIG['implementedBy'])
+    dpb = outermost(directlyProvidedBy, ORIG['directlyProvidedBy'])
+    wrappers['directlyProvidedBy'] = lambda ob: dpb(ob)
     wrappers['providedBy'] = lambda ob: pb(ob)
     wrappers['implementedBy'] = lambda cls: ib(cls)
     for n, w in wrappers.items():
@@ -493,6 +518,29 @@ def random_traces(seed, ntraces, nevents):
                     R.rebased()
                 elif r < .57 and len(objs) < 5:
                     newobj()
+                elif r < .60:
+                    # the class as an object
+                    q = rng.random()
+                    if q < .3:
+                        call('alsoProvides', C, *some)
+                    elif q < .45:
+                        call('directlyProvides', C, *some)
+                    elif q < .55:
+                        script.append('provider(%s)(%s)' % (
+                            ', '.join(map(nm, some)), nm(C)))
+                        zi.provider(*some)(C)
+                    elif q < .65:
+                        try:
+                            call('noLongerProvides', C, I)
+                        except ValueError:
+                            pass
+                    elif q < .8:
+                        call('providedBy', C)
+                    else:
+                        script.append('%s.providedBy(%s)' % (nm(I), nm(C)))
+                        I.providedBy(C)
+                elif r < .62:
+                    call('directlyProvidedBy', rng.choice([ob, ob, C]))
                 elif r < .66:
                     call('providedBy', ob)
                 elif r < .76:
